@@ -92,18 +92,6 @@ PendingFrom(ms, known, all) ==
                THEN <<mu>> ELSE <<>>) \o PendingFrom(Tail(ms), known, all)
 Pending(ms) == PendingFrom(ms, DOMAIN Sig0, ms)
 
-(* a ChangeMeta naming a field the model does not have at that point is accepted by the
-   simulation but cannot be lowered (FieldDoesNotExist while generating SQL, before any
-   statement runs) *)
-RECURSIVE MetaNamesMissing(_, _)
-MetaNamesMissing(ms, sig) ==
-    IF ms = <<>> THEN FALSE
-    ELSE LET mu == Head(ms)
-             r  == Sim(mu, sig)
-         IN \/ /\ mu.k = "Meta" /\ mu.m \in DOMAIN sig /\ mu.prop = "unique_together"
-               /\ \E i \in 1..Len(mu.val) : ~(SeqSet(mu.val[i]) \subseteq DOMAIN sig[mu.m].fields)
-            \/ (r.ok /\ MetaNamesMissing(Tail(ms), r.sig))
-
 (* what the real pipeline does with the perturbed evolution *)
 PRun == TwoPass(Pending(pert), Sig0)
 Prediction == IF ~PRun.ok \/ MetaNamesMissing(Pending(pert), Sig0) THEN "sim-fails"
